@@ -454,13 +454,47 @@ Definition agg_types (keys : list lexpr) (aggs : list aggx) : list coltype :=
 Definition typed_answer (keys : list lexpr) (aggs : list aggx) (rs : list (list val)) : list (list val) :=
   map (map cell_val) (typed_rows (match keys with [] => map agg_coltype aggs | _ => agg_types keys aggs end) (map (map CVal) rs)).
 
-Lemma dedup_by_map {A B} (f : A -> B) (eqb : B -> B -> bool) (l : list A) : forall seen,
-  dedup_by eqb (map f seen) (map f l) = map f (dedup_by (fun a b => eqb (f a) (f b)) seen l).
+Lemma mapM_combine_map {A B C} (g : A -> B) (F : A * B -> res C) (G' : A -> res C) (l : list A) :
+  (forall a, List.In a l -> F (a, g a) = G' a) -> mapM F (combine l (map g l)) = mapM G' l.
 Proof.
-  induction l as [|x l IH]; intros seen; [reflexivity|]. cbn [map dedup_by].
-  rewrite existsb_map. destruct (existsb (fun a => eqb (f x) (f a)) seen); [apply IH|].
-  cbn [map]. f_equal. apply (IH (x :: seen)).
+  induction l as [|a l IH]; intros H; [reflexivity|]. cbn [map combine mapM]. rewrite (H a (or_introl eq_refl)).
+  destruct (G' a); [|reflexivity]. cbn [rbind]. rewrite IH by (intros a' Ha'; apply H; right; exact Ha'). reflexivity.
 Qed.
+Definition keyof_cols (gcols : list nat) (r : row) : list val := map (fun i => cell_val (nth i r (CVal VNull))) gcols.
+Definition one_group (aggs : list aggx) (acols : list (option nat)) (gcols : list nat) (rows1 : list row) (k : list val) : res row :=
+  let rs := filter (fun r => row_vals_eqb (keyof_cols gcols r) k) rows1 in
+  do avs <- mapM (fun ac : aggx * option nat => agg_value (fst ac)
+                              (match snd ac with Some c => map (fun r => cell_val (nth c r (CVal VNull))) rs | None => [] end)
+                              (List.length rs)) (combine aggs acols);
+  Ok (map CVal (k ++ avs)).
+Definition agg_core (gb : list lexpr) (aggs : list aggx) (t1 : tbl) (gcols : list nat) (acols : list (option nat)) : res tbl :=
+  let names := map expr_name gb ++ map agg_name aggs in
+  if negb (forallb (fun r => forallb group_key_ok (keyof_cols gcols r)) (rows t1)) then Err else
+  match gb with
+  | [] => do r <- one_group aggs acols gcols (rows t1) []; Ok (mkT names (typed_rows (map agg_coltype aggs) [r]))
+  | _ => do rs <- mapM (one_group aggs acols gcols (rows t1)) (dedup_by row_vals_eqb [] (map (keyof_cols gcols) (rows t1)));
+         Ok (mkT names (typed_rows (map (fun _ => TGen) gb ++ map agg_coltype aggs) rs))
+  end.
+Lemma aggregate_tbl_core st gb aggs t :
+  aggregate_tbl st gb aggs t =
+  (do t1 <- add_prop_cols st t (agg_exprs gb aggs);
+   do gcols <- mapM (key_col (cols t1)) gb;
+   do acols <- mapM (fun a : aggx => match ag_arg a with Some e => do c <- key_col (cols t1) e; Ok (Some c) | None => Ok None end) aggs;
+   agg_core gb aggs t1 gcols acols).
+Proof. reflexivity. Qed.
+
+Lemma mapM_rel {A B C} (f : A -> res B) (g : A -> res C) (R : B -> C -> Prop) (l : list A) :
+  (forall a, match f a, g a with Ok b, Ok c => R b c | Err, Err => True | _, _ => False end) ->
+  match mapM f l, mapM g l with Ok bs, Ok cs => Forall2 R bs cs | Err, Err => True | _, _ => False end.
+Proof.
+  intros H. induction l as [|a l IH]; [constructor|]. cbn [mapM]. specialize (H a).
+  destruct (f a), (g a); cbn [rbind]; try contradiction; [|exact I].
+  destruct (mapM f l), (mapM g l); cbn [rbind]; try contradiction; [|exact I]. constructor; assumption.
+Qed.
+Lemma group_match {A B} (K : list lexpr) (R : A -> B -> Prop) (x1 y1 : A) (x2 y2 : B) :
+  (K = [] -> R x1 x2) -> (K <> [] -> R y1 y2) ->
+  R (match K with [] => x1 | _ :: _ => y1 end) (match K with [] => x2 | _ :: _ => y2 end).
+Proof. destruct K; intros H1 H2; [apply H1; reflexivity|apply H2; discriminate]. Qed.
 
 Theorem agg_sem st keys aggs t :
   wfc t -> keys_fresh (cols t) (agg_exprs keys aggs) ->
@@ -476,7 +510,7 @@ Proof.
   assert (Hvars : forall x k, List.In (EProp x k) (agg_exprs keys aggs) -> List.In x (cols t)).
   { intros x k Hin. specialize (Hk _ Hin). apply andb_true_iff in Hk. destruct Hk as [Hk _]. cbn [core_item] in Hk.
     apply existsb_exists in Hk. destruct Hk as (y & Hy & Hxy). apply String.eqb_eq in Hxy. subst y. apply filter_In in Hy. apply Hy. }
-  unfold aggregate_tbl. fold (agg_exprs keys aggs).
+  rewrite aggregate_tbl_core.
   destruct (add_prop_cols_spec st t (agg_exprs keys aggs) Hw Hfr Hvars) as (t1 & Ha & Hc1 & f & Hrows1 & Hf).
   rewrite Ha. cbn [rbind].
   (* key columns *)
@@ -511,33 +545,27 @@ Proof.
     - rewrite map_map. cbn [fst]. rewrite map_id. exact Hnew.
     - rewrite map_map. cbn [fst]. rewrite map_id. exact He. }
   set (E := row_env (cols t)).
-  set (keyofr := fun r : row => map (fun i => cell_val (nth i r (CVal VNull))) (map colof keys)).
+  set (keyofr := keyof_cols (map colof keys)).
   set (keyofe := fun en : env => map (item_val st en) keys).
   assert (Hkey : forall r, List.In r (rows t) -> keyofr (f r) = keyofe (E r)).
-  { intros r Hr. unfold keyofr, keyofe. rewrite map_map. apply map_ext_in. intros e He. apply Hval; [exact Hr|apply in_or_app; left; exact He]. }
-  rewrite Hrows1.
+  { intros r Hr. unfold keyofr, keyof_cols, keyofe. rewrite map_map. apply map_ext_in. intros e He. apply Hval; [exact Hr|apply in_or_app; left; exact He]. }
+  unfold agg_core. rewrite Hrows1. fold keyofr.
   (* the group-key check *)
   assert (Hgk' : negb (forallb (fun r => forallb group_key_ok (keyofr r)) (map f (rows t))) = false).
   { apply negb_false_iff. apply forallb_forall. intros r' Hr'. apply in_map_iff in Hr'. destruct Hr' as (r & <- & Hr).
     rewrite (Hkey r Hr). apply Hgk. exact Hr. }
-  fold keyofr. rewrite Hgk'.
-  (* one group *)
-  set (oner := fun k : list val =>
-      let rs := filter (fun r => row_vals_eqb (keyofr r) k) (map f (rows t)) in
-      do avs <- mapM (fun ac : aggx * option nat => agg_value (fst ac)
-                                  (match snd ac with Some c => map (fun r => cell_val (nth c r (CVal VNull))) rs | None => [] end)
-                                  (List.length rs)) (combine aggs (map acolf aggs));
-      Ok (map CVal (k ++ avs))).
+  rewrite Hgk'.
+  set (oner := one_group aggs (map acolf aggs) (map colof keys) (map f (rows t))).
   set (onee := fun k : list val =>
       let g := filter (fun en => row_vals_eqb (keyofe en) k) (tbl_envs t) in
       do avs <- mapM (fun a => agg_value a (match ag_arg a with Some e => map (fun en => item_val st en e) g | None => [] end)
                                          (List.length g)) aggs;
       Ok (@nil (string * ent), k ++ avs)).
   assert (Hone : forall k, match oner k, onee k with
-                           | Ok r, Ok (_, vs) => r = map CVal vs
+                           | Ok r, Ok ev => r = map CVal (snd ev)
                            | Err, Err => True
                            | _, _ => False end).
-  { intros k. unfold oner, onee. cbv zeta. unfold tbl_envs. fold E.
+  { intros k. unfold oner, one_group, onee. cbv zeta. fold keyofr. unfold tbl_envs. fold E.
     rewrite !filter_map_comm.
     rewrite (filter_ext_in' (fun a => row_vals_eqb (keyofr (f a)) k) (fun a => row_vals_eqb (keyofe (E a)) k))
       by (intros r Hr; rewrite (Hkey r Hr); reflexivity).
@@ -548,36 +576,85 @@ Proof.
                           (match snd ac with Some c => map (fun r => cell_val (nth c r (CVal VNull))) (map f G) | None => [] end) (List.length G))
                        (combine aggs (map acolf aggs))
                   = mapM (fun a => agg_value a (match ag_arg a with Some e => map (fun en => item_val st en e) (map E G) | None => [] end) (List.length G)) aggs).
-    { assert (Hin : forall a, List.In a aggs -> List.In a aggs) by auto. revert Hin. generalize aggs at 1 3 4 as l.
-      induction l as [|a l IH]; intros Hin; [reflexivity|]. cbn [map combine mapM fst snd].
+    { apply mapM_combine_map. intros a Hain. cbn [fst snd].
       assert (Harg : match acolf a with Some c => map (fun r => cell_val (nth c r (CVal VNull))) (map f G) | None => [] end
                      = match ag_arg a with Some e => map (fun en => item_val st en e) (map E G) | None => [] end).
       { unfold acolf. destruct (ag_arg a) as [e|] eqn:Ee; [|reflexivity]. rewrite !map_map. apply map_ext_in. intros r Hr.
-        apply Hval; [apply HG; exact Hr|]. apply in_or_app. right. apply in_flat_map. exists a. split; [apply Hin; left; reflexivity|].
+        apply Hval; [apply HG; exact Hr|]. apply in_or_app. right. apply in_flat_map. exists a. split; [exact Hain|].
         rewrite Ee. left. reflexivity. }
-      rewrite Harg. destruct (agg_value a _ (List.length G)); [|reflexivity]. cbn [rbind].
-      rewrite IH by (intros a' Ha'; apply Hin; right; exact Ha'). reflexivity. }
-    rewrite Hav. destruct (mapM _ aggs); cbn [rbind]; [reflexivity|exact I]. }
-  fold oner.
+      rewrite Harg. reflexivity. }
+    rewrite Hav. match goal with |- context [rbind ?m _] => destruct m as [avs|] end; cbn [rbind]; cbv beta iota; [reflexivity|exact I]. }
   unfold spec_group. fold keyofe. fold onee.
-  destruct keys as [|k0 keys'] eqn:Ekeys.
+  apply (group_match keys
+           (fun (a : res tbl) (b : res (list (env * list val))) =>
+              match a, b with
+              | Ok t', Ok rs => out_rows t' = typed_answer keys aggs (map snd rs)
+              | Err, Err => True
+              | _, _ => False end)).
   - (* no grouping: one row *)
-    specialize (Hone []). destruct (oner []) as [r|], (onee []) as [[en vs]|]; cbn [rbind]; try contradiction; [|exact I].
-    subst r. cbn [out_rows rows mkT map]. unfold typed_answer. cbn [map]. reflexivity.
-  - rewrite <- Ekeys in *.
+    intros Ekeys. specialize (Hone []). unfold onee, keyofe in Hone |- *. cbv zeta in Hone |- *.
+    destruct (oner []) as [r|];
+      match type of Hone with context [match ?B with Ok _ => _ | Err => _ end] => destruct B as [ev|] end;
+      cbn [rbind]; try contradiction; [|exact I].
+    subst r. cbn [out_rows rows mkT map]. unfold typed_answer. rewrite Ekeys. reflexivity.
+  - intros Ekeys.
     assert (Hgroups : dedup_by row_vals_eqb [] (map keyofr (map f (rows t))) = dedup_by row_vals_eqb [] (map keyofe (tbl_envs t))).
     { f_equal. unfold tbl_envs. fold E. rewrite !map_map. apply map_ext_in. intros r Hr. apply Hkey. exact Hr. }
     rewrite Hgroups.
     generalize (dedup_by row_vals_eqb [] (map keyofe (tbl_envs t))) as groups. intros groups.
-    assert (Hmap : match mapM oner groups, mapM onee groups with
-                   | Ok rs1, Ok rs2 => rs1 = map (fun ev => map CVal (snd ev)) rs2
-                   | Err, Err => True
-                   | _, _ => False end).
-    { induction groups as [|k groups IH]; [reflexivity|]. cbn [mapM]. specialize (Hone k).
-      destruct (oner k) as [r|], (onee k) as [[en vs]|]; cbn [rbind]; try contradiction; [|exact I].
-      destruct (mapM oner groups) as [rs1|], (mapM onee groups) as [rs2|]; cbn [rbind]; try contradiction; [|exact I].
-      subst. reflexivity. }
-    destruct (mapM oner groups) as [rs1|], (mapM onee groups) as [rs2|]; cbn [rbind]; try contradiction; [|exact I].
-    subst rs1. cbn [out_rows rows mkT]. unfold typed_answer, agg_types. rewrite Ekeys.
+    match goal with |- match rbind ?MA _ with Ok _ => match ?MB with _ => _ end | Err => _ end =>
+      match MA with mapM ?F ?L => match MB with mapM ?G _ =>
+        pose proof (mapM_rel F G (fun r ev => r = map CVal (snd ev)) L Hone) as Hmap0 end end;
+      remember MA as RA eqn:EA; remember MB as RB eqn:EB;
+      assert (Hmap : match RA, RB with
+                     | Ok bs, Ok cs => Forall2 (fun (r : row) (ev : env * list val) => r = map CVal (snd ev)) bs cs
+                     | Err, Err => True | _, _ => False end) by (subst RA RB; exact Hmap0) end.
+    clear Hmap0 EA EB. destruct RA as [rs1|], RB as [rs2|]; cbn [rbind]; try contradiction; [|exact I].
+    assert (rs1 = map (fun ev => map CVal (snd ev)) rs2) by (clear -Hmap; induction Hmap; cbn [map]; [reflexivity|subst; f_equal; assumption]).
+    subst rs1. cbn [out_rows rows mkT]. unfold typed_answer, agg_types.
+    destruct keys as [|k0 keys']; [exfalso; apply Ekeys; reflexivity|].
     rewrite (map_map snd (map CVal)). reflexivity.
+Qed.
+
+(** the aggregating core query: MATCH chain [WHERE] RETURN keys, aggregates *)
+Definition agg_core_q (q : query) : bool :=
+  match q_ret q with
+  | RAgg keys aggs => forallb (fun e => core_item (pat_vars (q_pat q)) e && sort_key e) (agg_exprs keys aggs)
+  | _ => false
+  end
+  && match q_where q with Some w => expr_vars_in (pat_vars (q_pat q)) w | None => true end.
+
+Theorem agg_answer_l st q keys aggs :
+  store_ok st -> single_hops (q_pat q) = true -> single_labels (q_pat q) = true -> pat_fresh (q_pat q) = true ->
+  no_type_case st (q_pat q) = true -> directed (q_pat q) = true ->
+  q_ret q = RAgg keys aggs -> agg_core_q q = true -> q_order q = [] -> q_skip q = None -> q_limit q = None ->
+  keys_fresh (chain_cols_pat (q_pat q)) (agg_exprs keys aggs) ->
+  (forall en, List.In en (body_envs st q) -> forallb group_key_ok (map (item_val st en) keys) = true) ->
+  match plan_rows st (gql_plan_of q), answer st q with
+  | Ok rows, Ok rs => rows = typed_answer keys aggs rs
+  | Err, Err => True
+  | _, _ => False
+  end.
+Proof.
+  intros Hok H1 H2 Hf H3 H4 Hr Hac Ho Hsk Hli Hkf Hgk. unfold agg_core_q in Hac. rewrite Hr in Hac.
+  apply andb_true_iff in Hac. destruct Hac as [Hac Hw].
+  destruct (body_sem st q H1 Hf Hw) as (t & Hs & Hwf & Hv & He).
+  rewrite (obindings_directed st (q_pat q) Hok H1 H2 H3 H4) in He. fold (body_envs st q) in He.
+  destruct (chain_obindings_wfc st (q_pat q) H1 Hf) as (t0 & Hs0 & _ & Hc0 & _).
+  assert (Hcols : cols t = chain_cols_pat (q_pat q)).
+  { unfold where_plan in Hs. destruct (q_where q); [|rewrite Hs0 in Hs; inversion Hs; subst; exact Hc0].
+    rewrite sem_ops_filter, Hs0 in Hs. cbn [rbind] in Hs. inversion Hs; subst. exact Hc0. }
+  pose proof (agg_sem st keys aggs t Hwf) as Hagg.
+  rewrite Hcols in Hagg. specialize (Hagg Hkf). rewrite <- Hcols in Hagg.
+  assert (Hk : forallb (fun e => core_item (filter nonanon (cols t)) e && sort_key e) (agg_exprs keys aggs) = true).
+  { rewrite forallb_forall in Hac |- *. intros e He'. specialize (Hac e He'). apply andb_true_iff in Hac. destruct Hac as [Ha Hb].
+    rewrite Hb, andb_true_r. eapply core_item_mono; [exact Hv|exact Ha]. }
+  specialize (Hagg Hk).
+  assert (Hg : forall r, List.In r (rows t) -> forallb group_key_ok (map (item_val st (row_env (cols t) r)) keys) = true).
+  { intros r Hrin. apply Hgk. rewrite <- He. unfold tbl_envs. apply in_map. exact Hrin. }
+  specialize (Hagg Hg). rewrite He in Hagg.
+  unfold plan_rows, gql_plan_of. rewrite Hr. cbn [sem_ops]. rewrite Hs. cbn [rbind].
+  unfold answer. rewrite Hr, Ho, Hsk, Hli. cbn [spec_order spec_skip spec_limit]. fold (body_envs st q).
+  destruct (aggregate_tbl st keys aggs t) as [t'|], (spec_group st keys aggs (body_envs st q)) as [rs|]; cbn [rbind]; try contradiction; [|exact I].
+  exact Hagg.
 Qed.
